@@ -39,12 +39,17 @@ distance of each reference is drawn around the edges of its type's range (lo, lo
 0, +-step, random inside, and - in "reject" cases, one site per link - just outside, far outside
 or misaligned); optionally two objects are partially linked first.
 
-Narrowed: (1) relaxable riscv:rvc types cb_imm11/cbl_imm11 are only given targets outside the
-shrink window (relaxation is C13's); (2) arm ``rel8`` has no instruction that carries it and is
-not generated; (3) ARM ``adr`` and ``ldr`` literal distances are kept to multiples of 4 inside
-+-4 KiB (the window the types document) unless unrepresentable in the ISA as well; (4) sites carry
-zero fields as emitted by ppci (no pre-filled addends in the field); (5) addresses stay inside the
-ISA's address space so that no distance relies on address wrap-around.
+Narrowed: (1) relaxable riscv:rvc types cb_imm11/cbl_imm11 are only given even targets outside the
+shrink window (the shrink decision is C13's); (2) arm ``rel8`` has no instruction that carries it and
+is not generated (``observed.types_without_carrier``); (3) ARM ``adr`` and ``ldr`` literal distances
+are kept to multiples of 4 inside +-4 KiB (the window the types document) unless unrepresentable in
+the ISA as well; (4) sites carry zero fields as emitted by ppci (no pre-filled addends in the field);
+(5) addresses stay inside the ISA's address space and S + A >= 0, so that no distance relies on
+address wrap-around; (6) absaddr16/32/64 are read little-endian on every target (the type is a
+little-endian token; ppci has no big-endian data relocation); (7) instruction operands other than
+the label are zero or 4 (operand encoding is C08/C10's).  The generator is this file's own (objgen's
+random-byte sites cannot be reference-decoded); objects and layouts use objgen's spec format and
+``objgen.build_object`` / ``build_layout``; carriers come from ``vlib.isaenum``.
 """
 import re
 
